@@ -265,8 +265,10 @@ class WebpageUnavailablePenalty(AbstractReward, discriminator="webpage-unavailab
             "execute",
         ]
 
-        # skip calculating if sticky and no new codes, reusing last step value
-        if not request_attempted and self.config.sticky:
+        # no new request: reuse last step's value if sticky, otherwise go back to 0
+        if not request_attempted:
+            if not self.config.sticky:
+                self.reward = 0.0
             return self.reward
 
         if last_action_response.response.status != "success":
